@@ -27,7 +27,7 @@ RULE = ('case = generated workflow with absolute triggers x recurrences x '
 ASSUMPTIONS = []
 MIN = {'c45.abs_prereq_checks': 400, 'c45.abs_checks_at-spawn': 60,
        'c45.abs_checks_after-restart': 20}
-NCASES = {'quick': 160, 'thorough': 2000}
+NCASES = {'quick': 500, 'thorough': 6000}
 MONS = ['c45', 'c26']
 
 
@@ -36,19 +36,24 @@ def ncases(tier):
 
 
 def run_case(ctx, i, rng):
-    feat = wfgen.Features(abs_triggers=True, max_tasks=5,
+    feat = wfgen.Features(abs_triggers=True, abs_later=True, max_tasks=5,
                           recs=['P1', 'P1', 'R1', 'P2', '2/P2'],
                           runahead=['P0', 'P1', 'P2', 'P4', None],
                           optional_outputs=rng.random() < 0.5)
     gt = wfgen.gen_workflow(rng, feat)
     case = runner.build_case(rng, gt, 'all-complete', hostile=0.3)
+    if rng.random() < 0.3 and gt['final'] >= 3:
+        # warm start: the first dependant instances lie before the start
+        # point and can never be spawned
+        case['options'] = {'startcp': str(rng.randint(2, gt['final'] - 1))}
+        case['start_point'] = int(case['options']['startcp'])
     nphase = rng.choice([1, 2, 2, 3])
     plist = []
     for ph in range(nphase):
         p = {'name': f'p{ph}'}
         if ph < nphase - 1:
             k = rng.randint(3, 14)
-            if rng.random() < 0.4:
+            if rng.random() < 0.2:
                 p['kill_at_iter'] = k
             else:
                 p['script'] = [{'at': k, 'cmd': 'stop', 'args': {
